@@ -1,6 +1,7 @@
 """ Manager for file backups for remodeling tools. """
 
 import os
+import re
 import json
 import shutil
 from datetime import datetime
@@ -241,7 +242,8 @@ class BackupManager:
 
         base = os.path.basename(file_path)
         for task in task_names:
-            if ('task_' + task) in base:
+            # The whole task name must match: 'go' does not select 'task_gonogo'.
+            if re.search('task_' + re.escape(task) + r'(?![A-Za-z0-9])', base):
                 return task
         else:
             return ''
